@@ -208,6 +208,30 @@ def gen_scenario(rng, quick):
     return {"spec": spec, "profile": profile, "steps": steps, "pick": rng.getrandbits(30)}
 
 
+def gen_p_only_island(rng):
+    """directed family: a second island supplied by a pressure-only ext grid (type "p") is calculated
+    hydraulically but not thermally, so the heat-transfer active pit is smaller than the hydraulic one"""
+    pn, t0 = rng.choice([5.0, 0.2, 60.0]), rng.choice([300., 283.15, 600.])
+    md, d = rng.choice([0.05, 1.0, 8.0]), rng.choice([40., 80.])
+    ops = [["create_junction", {"pn_bar": pn, "tfluid_k": t0, "index": i}] for i in range(5)]
+
+    def pipe(i, a, b, sections=1):
+        return ["create_pipe_from_parameters", {"from_junction": a, "to_junction": b, "length_km": 0.5, "inner_diameter_mm": d,
+                                                "k_mm": 0.1, "u_w_per_m2k": 2.0, "text_k": 283.15, "sections": sections, "index": i}]
+    ops += [["create_ext_grid", {"junction": 0, "p_bar": 5.0, "t_k": 350.0, "type": "pt", "index": 0}],
+            pipe(0, 0, 1, 3), pipe(1, 1, 2), ["create_sink", {"junction": 2, "mdot_kg_per_s": md, "index": 0}],
+            ["create_ext_grid", {"junction": 3, "p_bar": 5.0, "type": "p", "index": 1}],
+            pipe(2, 3, 4), ["create_sink", {"junction": 4, "mdot_kg_per_s": md, "index": 1}]]
+    steps = [{"mut": "none", "mode": m, "method": meth} for m, meth in
+             rng.sample([("bidirectional", "automatic"), ("bidirectional", "constant"), ("sequential", "automatic"),
+                         ("bidirectional", "automatic")], 3)]
+    return {"spec": {"fluid": "water", "ops": ops}, "profile": "water_p_only_island", "steps": steps,
+            "pick": rng.getrandbits(30)}
+
+
+DRIVER_FUNCS = ("pipeflow.py:newton_raphson", "pipeflow.py:finalize_iteration", "pipeflow.py:set_damping_factor")
+
+
 def apply_mutation(net, mut, pick):
     """edit the user tables of the live net; returns (options, undo)"""
     import pandapipes as pp
@@ -353,8 +377,9 @@ def run_scenarios(ctx, n_scen):
     rng = ctx.rng
     seqs, meta = [], []
     n_calls = 0
-    for _ in range(n_scen):
-        sc = gen_scenario(rng, ctx.quick)
+    n_directed = max(4, n_scen // 20)
+    for i_sc in range(n_scen + n_directed):
+        sc = gen_scenario(rng, ctx.quick) if i_sc < n_scen else gen_p_only_island(rng)
         try:
             net = gen.build(sc["spec"])
         except Exception as e:  # noqa: BLE001
@@ -404,6 +429,11 @@ def run_scenarios(ctx, n_scen):
                     report(ctx, {"clause": "failed_run_leaves_no_results", "exception": cls, "raised_in": where},
                                   "pipeflow raised %s (%s) and afterwards net.converged=%s and result tables %s"
                                   % (cls, where, conv, "are all NaN" if allnan else "hold numbers"), replay)
+                if where in DRIVER_FUNCS:
+                    report(ctx, {"clause": "fails_only_with_PipeflowNotConverged", "exception": cls, "raised_in": where,
+                                 "mode": mode, "method": st["method"]},
+                           "the Newton driver itself raised %s (%s: %s) in mode %s with %s damping instead of ending in a "
+                           "result or in PipeflowNotConverged" % (cls, where, str(exc)[:120], mode, st["method"]), replay)
             # ---- model call ----
             tabs = "AllNaN" if allnan else "Written"
             if flags["options_raise"]:
@@ -520,6 +550,8 @@ def monitor_success(ctx, net, mode, runs, replay):
         hyd = mode != "heat"      # mode "heat" re-extracts thermal columns only
         cols = (["p_bar"] if hyd else []) + (["t_k"] if thermal else [])
         for c in cols:
+            if c == "t_k" and "node_active_heat_transfer" in lk:
+                rj = net.res_junction.loc[labels[np.asarray(lk["node_active_heat_transfer"])[f:t]]]
             badj = rj.index[~np.isfinite(rj[c].values.astype(float))].tolist()
             if badj:
                 report(ctx, {"clause": "supplied_results_finite", "table": "res_junction", "column": c},
@@ -532,7 +564,12 @@ def monitor_success(ctx, net, mode, runs, replay):
             blab = net["_pit"]["branch"][bf:bt, BR_ELEMENT_IDX].astype(np.int64)
             pin = [int(l) for l in np.unique(blab) if bool(np.all(bact[blab == l]))]
             rp = net.res_pipe.loc[pin]
+            pin_t = pin
+            if thermal and "branch_active_heat_transfer" in lk:      # thermal columns: the thermally supplied part
+                bact_t = np.asarray(lk["branch_active_heat_transfer"])[bf:bt]
+                pin_t = [int(l) for l in np.unique(blab) if bool(np.all(bact_t[blab == l]))]
             for c in (["mdot_from_kg_per_s", "v_mean_m_per_s", "p_from_bar"] if hyd else []) + (["t_from_k", "t_to_k"] if thermal else []):
+                rp = net.res_pipe.loc[pin_t if c.startswith("t_") else pin]
                 if c in rp:
                     badp = rp.index[~np.isfinite(rp[c].values.astype(float))].tolist()
                     if badp:
